@@ -11,6 +11,8 @@ R3  every write in the address makers/parsers and converters is bounded
 R4  every transport name is dispatched to the parser for that very name.
 R5  UX makers reject names longer than the socket path limit first.
 """
+import re
+
 from .. import bounds as B
 from .. import cfg as C
 from ..model import Program
@@ -307,6 +309,7 @@ def run(ctx):
     # transport) must be able to take - their scratch buffers are never the reason for a rejection
     r6 = ctx.rule("C12.R6", "the library's own callers of the name parsers pass buffers that hold every name the parser accepts")
     lim = {}          # parser function -> (index of the capacity parameter, largest accepted length K)
+    nolimit = []      # parsers that copy out under the caller's capacity only
     for f in P.fns_in("core/xcm_addr.c"):
         K, capi = None, None
         for b, cond in C.cond_blocks(f):
@@ -322,7 +325,9 @@ def run(ctx):
                 capi = ([i for i, p in enumerate(f.params) if p["name"] == rn["name"]][0], 1 if op == ">=" else 0)
         if K is not None and capi is not None:
             lim[f] = (capi[0], K + capi[1])        # the capacity needed for the longest accepted name
-    if not lim:
+        elif capi is not None and any(d.name == "proto_addr_parse" for c in f.calls() for d in P.callees(f, c)[0]):
+            nolimit.append(f)
+    if not lim and not nolimit:
         raise Broken("C12.R6: no parser with a name limit and a capacity parameter found")
     # wrappers that pass their own capacity parameter through
     changed = True
@@ -357,8 +362,64 @@ def run(ctx):
                 else:
                     r6.violation("%s:%s:buffer-smaller-than-limit" % (f.name, d.name), "%s hands %s a %d-byte buffer although the parser accepts names that need %d: an address every "
                                  "other function accepts (make, parse, server, connect) is rejected here" % (f.name, d.name, cap, need), loc=f.loc(c))
-    if nsite < 4:
+    if nsite < 4 and not nolimit:
         raise Broken("C12.R6: only %d internal call sites with a constant capacity" % nsite)
+
+    # ------------------------------------------------------------------ R8
+    # "names and addresses within the documented limits": the limits are the ones the makers enforce (R5: the socket
+    # path limit for UX/UXF names) and the one the public header gives for DNS names (the name member of struct
+    # xcm_addr_host holds the longest name plus the terminator).  Makers and parsers are siblings: a parser without
+    # the maker's limit accepts, for callers with a large buffer, names no maker produces and no transport binds.
+    r8 = ctx.rule("C12.R8", "parsers enforce the makers' and the header's name limits")
+    for f in nolimit:
+        r8.instance(f.qname)
+        r8.violation("%s:no-name-limit" % f.name, "%s copies the name out under the caller's capacity only: the limit the maker enforces (R5) is not tested, so the "
+                     "verdict on an over-long name depends on the size of the caller's buffer, and xcm_addr_is_valid accepts names that "
+                     "xcm_addr_make_ux/uxf, xcm_server and xcm_connect refuse" % f.name, loc=f.file)
+    uxp = [f for f in lim if "ux" in f.name and f.static]
+    for f in uxp:
+        K = lim[f][1] - 1
+        r8.instance("%s: names up to %d" % (f.qname, K))
+        if K == 107:
+            r8.ok("%s accepts names up to %d, the limit of addr_make_ux_uxf" % (f.name, K), "sibling agreement")
+        else:
+            r8.violation("%s:name-limit-differs" % f.name, "%s accepts names up to %d, the maker up to 107" % (f.name, K), loc=f.file)
+    if not uxp and not nolimit:
+        raise Broken("C12.R8: the UX/UXF name parser was not found")
+    host = P.record("xcm_addr_host")
+    fields = list(host["fields"])
+    for fl in host["fields"]:            # the members of the anonymous union, a record of its own in the facts
+        m = re.search(r":(\d+):(\d+)\)$", fl.get("t") or "")
+        if fl["name"] == "" and m:
+            for u in P.units:
+                for r_ in u.records:
+                    if r_["name"] == "" and r_["loc"][1:] == [int(m.group(1)), int(m.group(2))]:
+                        fields += r_["fields"]
+                break
+    doc = None
+    for fl in fields:
+        if fl.get("name") == "name" and fl.get("elt") == "char" and fl.get("alen"):
+            doc = fl["alen"] - 1
+    if doc is None:
+        raise Broken("C12.R8: struct xcm_addr_host.name not found")
+    dv = P.fn("xcm_dns_is_valid_name")
+    Kd = None
+    for b, cond in C.cond_blocks(dv):
+        l, op, r = C.cond_atom(dv, cond, True)
+        ln = dv.sn(l)
+        if ln["k"] == "call" and ln.get("callee") == "strlen" and not isinstance(r, tuple):
+            cv = C.const_of(dv, r)
+            if cv is not None and op in (">", ">="):
+                Kd = cv if op == ">" else cv - 1
+    r8.instance("xcm_dns_is_valid_name: names up to %s; struct xcm_addr_host.name holds %d" % (Kd, doc))
+    if Kd is None:
+        r8.violation("xcm_dns_is_valid_name:no-length-limit", "the DNS name predicate has no length limit (the header documents %d)" % doc, loc=dv.file)
+    elif Kd == doc:
+        r8.ok("the DNS name predicate accepts names up to %d characters, what struct xcm_addr_host.name is documented and sized for" % Kd, "constant comparison")
+    else:
+        r8.violation("xcm_dns_is_valid_name:limit-differs-from-header", "the DNS name predicate accepts names up to %d characters, the public header documents and sizes "
+                     "struct xcm_addr_host.name for %d: %s" % (Kd, doc, "valid names are refused by the parsers although the makers produce them" if Kd < doc else
+                     "the parsers accept names the public record cannot hold"), loc=dv.file)
 
     # ------------------------------------------------------------------ R7
     # "accept only the documented syntax": no white space anywhere in an address.  White space is what isspace() says
